@@ -230,6 +230,10 @@ func judgeC10(c *C10Case, cx *Ctx) *Violation {
 		w, on := kit.Wind(sol, q)
 		inside := w != 0 || on
 		if w != 0 && w != 1 && !on && kit.FarFrom(q, sol, true, band) {
+			if engineExcuse("C10", q, evs, raw, &classCache) {
+				cx.St.Count("mismatch_attributed_to_listed_engine_finding", 1)
+				continue
+			}
 			return violf("stroke result has winding number %d at %v; result=%v", w, q, sol)
 		}
 		a, b := line[seg], line[(seg+1)%n]
@@ -290,6 +294,10 @@ func judgeC10(c *C10Case, cx *Ctx) *Violation {
 				cx.St.Count("mismatch_attributed_to_listed_engine_finding", 1)
 				continue
 			}
+			if !inside && kfActive("C10", "class:compound-rounding") && dist > d-tol-0.75 && !(interiorFoot && dist <= d-tol-0.75) {
+				cx.St.Count("mismatch_attributed_to_listed_class_compound_rounding", 1)
+				continue
+			}
 			if !inside && d > minSegLen(line, closed) && kfActive("C10", "class:delta-exceeds-segment") {
 				// listed finding F43: with delta larger than a segment the inverted loops of the raw
 				// offset curve at concave vertices reach across the stroke and cancel parts of it
@@ -313,6 +321,20 @@ func judgeC10(c *C10Case, cx *Ctx) *Violation {
 			if w != 0 && !on && engineExcuse("C10", q, evs, raw, &classCache) {
 				cx.St.Count("mismatch_attributed_to_listed_engine_finding", 1)
 				continue
+			}
+			if w != 0 && !on {
+				// F40 (compound rounding, +0.75) and F39 (Bevel mitres near-straight vertices, x1.00026)
+				tol2, k2 := tol, k
+				if kfActive("C10", "class:compound-rounding") {
+					tol2 += 0.75
+				}
+				if c.Join == c2.Bevel && kfActive("C10", "class:bevel-near-straight-miter") {
+					k2 *= 1.00026
+				}
+				if (tol2 != tol || k2 != k) && dist <= k2*d+tol2 {
+					cx.St.Count("mismatch_attributed_to_listed_class_rounding_or_bevel", 1)
+					continue
+				}
 			}
 			if w != 0 && !on {
 				return violf("delta=%v end=%s join=%s: point %v (distance %.3f from the polyline, k=%.3f, tol=%.3f) must be outside the stroke but is inside; line=%v result=%v",
